@@ -158,6 +158,11 @@ class C20(Cfg):
                 if r in seen: res.append(("exclusive", "room %d granted twice in one step" % r))
                 seen.add(r)
                 if c in dead: res.append(("dead-grant", "grant on dropped channel %d" % c))
+                # a request replaces the reply channel of its peer: a grant belongs on the channel of the peer's LATEST request
+                # (a connection that asked again on a new channel would otherwise never hear of its rooms)
+                pc = peer_of_ch.get(c)
+                if pc is not None and chan_of.get(pc) is not None and chan_of.get(pc) != c:
+                    res.append(("grant-on-stale-channel", "room %d granted on channel %d of peer %d whose latest request came on channel %d" % (r, c, pc, chan_of[pc])))
                 held[r] = c
                 p = peer_of_ch.get(c)
                 if p is None or r not in ever.get(p, set()):
